@@ -6,7 +6,7 @@ from .repo import AnalysisError, dotted
 from .interp_exec import short_name
 from .interp import (Outcome, NORMAL, Frame, CFG_ATTRS, CFG_CLASSES,
                      MAX_DEPTH)
-from .terms import NONE, TRUE, FALSE, const, is_const, strip_wrappers
+from .terms import NONE, TRUE, FALSE, const, is_const, strip_wrappers, plain
 
 PURE_METHODS = {"lower", "upper", "strip", "decode", "encode", "split",
                 "format", "join", "startswith", "endswith", "items", "keys",
@@ -37,6 +37,10 @@ class CallMixin(object):
                     return ("cfg", CFG_ATTRS[attr])
             if (tag, attr) in state.heap:
                 v = state.heap[(tag, attr)]
+                if (cls, attr) in self.id_attrs:
+                    if v[0] == "idof":
+                        v = v[3]
+                    return ("idof", base, attr, v)
                 if v[0] in ("dictlit", "coll") and (cls, attr) in self.container_attrs():
                     return ("reg", base, attr)
                 return v
@@ -147,6 +151,7 @@ class CallMixin(object):
 
     # -- registries ----------------------------------------------------------------
     def registry_get(self, reg, key, state, frame, node):
+        key = plain(key)
         owner = reg[1]
         info = self.registries.get((owner[1], reg[2]))
         if (reg, key) in state.regs:
